@@ -44,6 +44,8 @@ def check(ctx):
     ctx.rule("R8", "inputs that build_model attaches to user nodes (seed nodes) are detached "
                    "again by pop_nodes_and_vars / copy_nodes_and_vars, so that popped or "
                    "copied nodes can be built into a model again.")
+    ctx.rule("R9", "build_model edits only a private copy of the builder, and that copy "
+                   "does not share its node / variable lists with the original.")
     ctx.rule("R6", "pickling replaces exactly the weak model reference and restores it; "
                    "save_model / load_model use the same serializer in binary mode.")
     ctx.rule("R7", "a node / variable can belong to one model / variable only: the owner "
@@ -207,6 +209,48 @@ def check(ctx):
                                and t[2][0][2][0] == "a" and t[2][0][2][2] == "name" for t in cnt)
     ctx.ob("C15.R3", init, "duplicates are detected by counting the names of the "
                            "de-duplicated objects", ok)
+
+    # names are completed before anything derives a name from them (seed nodes are called
+    # _model_<node name>_seed)
+    order = [(t[1][2], t[1][1]) for t, _, _ in rb.calls if t[0] == "call" and t[1][0] == "a"
+             and t[1][2] in ("_set_missing_names", "_add_model_seed_nodes")]
+    names_ = [o[0] for o in order]
+    ctx.ob("C15.R3", bm, "missing names are set before the seed nodes (named after their "
+                         "node) are created", names_ == ["_set_missing_names",
+                                                         "_add_model_seed_nodes"],
+           detail=str(names_), stmt="naming order " + str(names_))
+
+    # ------------------------------------------------------------------ R9
+    # build_model works on a private copy of the builder whose node / var lists are new
+    # list objects, so the model nodes it adds never reach the user's builder
+    gbcopy = ("call", ("a", SELF, "copy"), (), ())
+    helpers = [t for t, _, _ in rb.calls if t[0] == "call" and t[1][0] == "a"
+               and (t[1][2].startswith("_add_model") or t[1][2] == "_set_missing_names")]
+    ctx.ob("C15.R9", bm, "naming and the model-owned nodes are applied to a copy of the "
+                         "builder (gb = self.copy()), never to the user's builder",
+           len(helpers) >= 5 and all(t[1][1] == gbcopy for t in helpers),
+           detail=str(sorted({pretty(t[1][1]) for t in helpers})), stmt="builder copy used")
+    cpm = method(repo, gb, "copy", own=True)
+    rcp = evaluate(repo, cpm)
+    rtc = rcp.ret()
+    fresh_obj = rtc is not None and is_call(rtc, f"{MODEL}.GraphBuilder")
+    lists_ok = False
+    if fresh_obj:
+        st = {loc[2]: val for loc, val, _, _ in rcp.stores if loc[0] == "a" and loc[1] == rtc}
+
+        def fresh_list(v, fld):
+            src = ("a", SELF, fld)
+            return v in (("call", ("a", src, "copy"), (), ()),
+                         ("call", ("n", "list"), (src,), ()),
+                         ("list", (("star", src),)))
+        lists_ok = fresh_list(st.get("nodes", ()), "nodes") and fresh_list(st.get("vars", ()),
+                                                                            "vars")
+    ctx.ob("C15.R9", cpm, "GraphBuilder.copy() returns a NEW builder whose nodes / vars are "
+                          "new list objects (a shallow object copy would share the lists, and "
+                          "build_model(copy=True) would leave '_model*' nodes in the user's "
+                          "builder)", fresh_obj and lists_ok,
+           detail=f"returns {short(rtc or ())}; fresh lists: {lists_ok}",
+           stmt="builder copy " + pretty(rtc or ())[:100])
 
     # ------------------------------------------------------------------ R4
     wiring_obligations(ctx, "C15.R4")
